@@ -1,4 +1,42 @@
-"""redisfuncs -- C33 / C34 / C35: the pure-function parts of the Redis integration (no Redis, no Lua)."""
+"""redisfuncs -- C33 / C34 / C35: the pure-function parts of the Redis integration that are decidable
+offline (there is no Redis server and no Lua interpreter here; nothing in this family needs one).
+
+C33  spec/PushFrame   grammar of PUB/SUB payload frames (Encode as the Lua scripts / Go do it, a TOTAL Decode
+                      written from the grammar); TLC: Decode(Encode(x)) = x, accepted frames are canonical,
+                      Decode defined on every enumerated string.  Rows (string -> plain | frame fields |
+                      rejected) replayed into extractPushData with recover(): panic = VIOLATION (sig
+                      panic:<frame type>:<message>), different decode of a plain payload / well-formed frame =
+                      VIOLATION (sig decode:<frame type>:<field>).  Strings outside the grammar that the code
+                      accepts leniently are counted, not judged.
+C34  spec/RedisKeys   Redis hash-tag rule + key/channel builders of RedisBroker, RedisMapBroker,
+                      RedisPresenceManager in 4 modes; TLC classifies the inputs for which the design is
+                      unsound.  Rows replayed into the real builders (engines built without a connection), slots
+                      by an independent CRC16; the real operations run against a recording rueidis client to get
+                      the actual KEYS of every EVALSHA.  sig = <mode>:<input class> for the classes of the spec
+                      (cluster|sharded|precomp : channel-starts-with-} | prefix-unclosed-brace |
+                      prefix-empty-braces), <mode>:<operation>:UNEXPECTED(<class>) for anything else,
+                      precomp:map.cleanup:registration-key-not-scanned for the cleanup worker's scan key.
+C35  spec/Partition   tag tables DUMPED FROM THE CODE into PartitionData.tla, validated against a bitwise
+                      CRC16-XMODEM + even contiguous slot assignment; rows falsifying the property are
+                      violations (sig size|charset|distinct|balance:P=<n>), the harness compares TagSlot and
+                      SlotToNode with the spec columns (sig tagslot, slot-to-node, counts).
+
+Genuine defects found on the unchanged tree (details in the builder's report):
+  C33  extractPushData / parseDeltaPush panic (slice bounds) on "__p__", "__p1__", "__d1:1:x:0:",
+       "__d1:1:x:-1:", "__d1:1:e:2:ab", ... ; no recover on the PUB/SUB processor goroutine.
+       Fix = three length checks (verified: check green, package tests green).
+  C34  (a) keys `prefix{ch}` with a channel starting with '}' (empty hash tag) and prefixes with an unclosed or
+       empty brace pair put the keys of one script into different slots (rueidis' cluster builder then panics
+       "multi key command with different key slots are not allowed") -> known finding, no small repair;
+       (b) with UsePrecomputedPartitionTags the map broker registers channels for expiry cleanup under
+       ...:cleanup:channels:{<tag>} but the cleanup worker scans ...:cleanup:channels:{<index>}: registered
+       channels are never cleaned and the batch-remove script would get keys of two slots.
+       Fix = e.pubSubPartitionHashTag(i) instead of strconv.Itoa(i) in cleanupShard and updateCleanupLag.
+
+Mutation testing (FRAMEWORK rule 3; scratch worktree with the C33 and C34(b) fixes applied and the C34(a)
+classes listed as known findings, so that the baseline is green; every mutant must turn the check red):
+@@MUTATIONS@@
+"""
 import json
 import os
 import re
